@@ -31,8 +31,8 @@ import (
 	"time"
 
 	"github.com/DataDog/datadog-traceroute/common"
-	trlog "github.com/DataDog/datadog-traceroute/log"
 	"github.com/DataDog/datadog-traceroute/icmp"
+	trlog "github.com/DataDog/datadog-traceroute/log"
 	"github.com/DataDog/datadog-traceroute/packets"
 
 	"verifharness/hx"
